@@ -657,3 +657,558 @@ Proof.
   split; [symmetry; apply stack_eqb_eq; exact H1|].
   intros E. rewrite E in H2. apply iso_b_sound. exact H2.
 Qed.
+
+(* ================================================================== C14_iso_hops
+   Tree isomorphism AND hop splicing together: task trees whose tasks may be parked anywhere in
+   to_thread/from_thread chains of any depth. *)
+Definition hideK (k : fkind) : bool := match k with KPlain | KToThreadNF => false | _ => true end.
+Definition outK (rc : bool) (f : frame) : fout :=
+  match f with Frame id k cs => FOut id (hideK k) (ext_ctxs rc cs) end.
+Definition frame_id (f : frame) : nat := match f with Frame id _ _ => id end.
+Definition frame_ctxs (f : frame) : ctxs := match f with Frame _ _ cs => cs end.
+
+(* [splice] returning the frames themselves *)
+Fixpoint sp_task (fs : frames) : list frame :=
+  match fs with
+  | FNil => []
+  | FCons f r =>
+    f :: match f with Frame _ k _ =>
+           match k with
+           | KTrap _ => []
+           | KToThread tfs => if next_is_wtr r then sp_thread tfs else sp_thread tfs ++ sp_task r
+           | _ => sp_task r
+           end
+         end
+  end
+with sp_thread (fs : frames) : list frame :=
+  match fs with
+  | FNil => []
+  | FCons f r =>
+    f :: match f with Frame _ k _ =>
+           match k with
+           | KFromHost => []
+           | KFromSys _ t => sp_task (task_frames t)
+           | _ => sp_thread r
+           end
+         end
+  end.
+
+Lemma sp_ids_all :
+  (forall t : task, map frame_id (sp_task (task_frames t)) = splice_task (task_frames t)) /\
+  (forall fs, map frame_id (sp_task fs) = splice_task fs /\ map frame_id (sp_thread fs) = splice_thread fs) /\
+  (forall f : frame, match f with Frame _ k _ =>
+     match k with
+     | KToThread tfs => map frame_id (sp_thread tfs) = splice_thread tfs
+     | KFromSys _ t => map frame_id (sp_task (task_frames t)) = splice_task (task_frames t)
+     | _ => True end end) /\
+  (forall k : fkind,
+     match k with
+     | KToThread tfs => map frame_id (sp_thread tfs) = splice_thread tfs
+     | KFromSys _ t => map frame_id (sp_task (task_frames t)) = splice_task (task_frames t)
+     | _ => True end) /\
+  (forall cs : ctxs, True) /\ (forall c : ctx, True) /\ (forall ts : tasks, True).
+Proof.
+  apply world_mutind; try (intros; exact I).
+  - intros r fs [H _]. exact H.
+  - split; reflexivity.
+  - intros f Hf r [IHt IHh]. destruct f as [id k cs]. split.
+    + cbn [sp_task splice_task map frame_id]. f_equal.
+      destruct k; simpl in Hf; try exact IHt; try reflexivity.
+      destruct (next_is_wtr r); [exact Hf|]. rewrite map_app, Hf, IHt. reflexivity.
+    + cbn [sp_thread splice_thread map frame_id]. f_equal.
+      destruct k; simpl in Hf; try exact IHh; try reflexivity. exact Hf.
+  - intros id k Hk cs _. exact Hk.
+  - intros tfs [_ H]. exact H.
+  - intros run t H. exact H.
+Qed.
+
+(* the hop theorem with full frames (ids, hide flags, contexts) *)
+Definition hopsF_task (fs : frames) : Prop :=
+  pp_task fs = true -> f14_free fs = true ->
+  forall rc inc n d, d <= n -> fst (walk rc inc n d None fs) = map (outK rc) (sp_task fs).
+Definition hopsF_thread (fs : frames) : Prop :=
+  forall ins, pp_thread ins fs = true -> f14_free fs = true ->
+  forall rc n, fst (walk rc false n n None fs) = map (outK rc) (sp_thread fs) /\
+               (ins = true -> snd (walk rc false n n None fs) = None \/
+                              snd (walk rc false n n None fs) = Some n).
+Definition hopsF_kind (k : fkind) : Prop :=
+  match k with
+  | KToThread tfs => hopsF_thread tfs
+  | KFromSys _ t => hopsF_task (task_frames t)
+  | _ => True
+  end.
+
+Lemma hopsF_all :
+  (forall t : task, hopsF_task (task_frames t)) /\
+  (forall fs, hopsF_task fs /\ hopsF_thread fs) /\
+  (forall f : frame, match f with Frame _ k _ => hopsF_kind k end) /\
+  (forall k : fkind, hopsF_kind k) /\
+  (forall cs : ctxs, True) /\ (forall c : ctx, True) /\ (forall ts : tasks, True).
+Proof.
+  apply world_mutind; try (intros; exact I).
+  - intros r fs [H _]. exact H.
+  - split.
+    + intros _ _ rc inc n d _. reflexivity.
+    + intros ins _ _ rc n. split; [reflexivity|]. intros _. left. reflexivity.
+  - intros f Hf r [IHt IHh]. destruct f as [id k cs]. split.
+    + intros Hpp Hf14 rc inc n d Hd.
+      pose proof (next_depth_ge inc n) as Hn.
+      simpl in Hpp, Hf14. simpl walk. unfold pruned.
+      destruct k; simpl in Hpp, Hf14; try discriminate.
+      * simpl. f_equal. apply IHt; auto.
+      * simpl. f_equal. apply IHt; auto.
+      * simpl. f_equal. rewrite walk_pruned by lia. reflexivity.
+      * simpl. f_equal. apply IHt; auto.
+      * apply andb_true_iff in Hf14 as [Hf1 Hf2]. simpl in Hf.
+        cbn [sp_task]. destruct (next_is_wtr r) eqn:Ew.
+        -- destruct (Hf false Hpp Hf1 rc (S d)) as [E _].
+           cbn [fst snd map outK hideK]. f_equal. rewrite E.
+           rewrite walk_pruned by lia. simpl. apply app_nil_r.
+        -- apply andb_true_iff in Hpp as [Hp1 Hp2].
+           destruct (Hf true Hp1 Hf1 rc (S d)) as [E S].
+           cbn [fst snd map outK hideK]. f_equal. rewrite map_app, E. f_equal.
+           destruct (S eq_refl) as [-> | ->].
+           ++ apply IHt; auto. lia.
+           ++ rewrite walk_unpruned_fst by lia. apply IHt; auto. lia.
+    + intros ins Hpp Hf14 rc n.
+      simpl in Hpp, Hf14. simpl walk. unfold pruned.
+      destruct k; simpl in Hpp, Hf14; try discriminate.
+      * destruct (IHh ins Hpp Hf14 rc n) as [E S]. simpl. split; [f_equal; exact E | exact S].
+      * destruct (IHh ins Hpp Hf14 rc n) as [E S]. simpl. split; [f_equal; exact E | exact S].
+      * simpl. rewrite walk_pruned by lia. simpl. split; [reflexivity|]. intros _. right. reflexivity.
+      * apply andb_true_iff in Hf14 as [Hf1 Hf2]. apply andb_true_iff in Hf1 as [Hre Hf1].
+        apply andb_true_iff in Hpp as [Hins Hp].
+        apply negb_true_iff in Hre. rewrite Hre. simpl in Hf.
+        cbn [fst snd]. rewrite walk_pruned by lia. split.
+        -- cbn [sp_thread map outK hideK fst]. f_equal. rewrite app_nil_r. apply Hf; auto.
+        -- intros ->. discriminate.
+  - intros id k Hk cs _. exact Hk.
+  - intros tfs [_ H]. exact H.
+  - intros run t H. exact H.
+Qed.
+
+(* the system tasks a stack continues into (from_thread.run(trio_token=...) hops), outside in *)
+Fixpoint cont_task (fs : frames) : list task :=
+  match fs with
+  | FNil => []
+  | FCons (Frame _ k _) r =>
+    match k with
+    | KTrap _ => []
+    | KToThread tfs => if next_is_wtr r then cont_thread tfs else cont_thread tfs ++ cont_task r
+    | _ => cont_task r
+    end
+  end
+with cont_thread (fs : frames) : list task :=
+  match fs with
+  | FNil => []
+  | FCons (Frame _ k _) r =>
+    match k with
+    | KFromHost => []
+    | KFromSys _ t => t :: cont_task (task_frames t)
+    | _ => cont_thread r
+    end
+  end.
+
+(* the frames that a stack does not show open no nursery, and neither do worker-thread frames *)
+Fixpoint quiet_task (fs : frames) : Prop :=
+  match fs with
+  | FNil => True
+  | FCons (Frame _ k _) r =>
+    match k with
+    | KTrap _ => frames_nids r = []
+    | KToThread tfs => quiet_thread tfs /\ (if next_is_wtr r then frames_nids r = [] else quiet_task r)
+    | _ => quiet_task r
+    end
+  end
+with quiet_thread (fs : frames) : Prop :=
+  match fs with
+  | FNil => True
+  | FCons (Frame _ k cs) r =>
+    ctx_nids cs = [] /\
+    match k with
+    | KFromHost => True
+    | KFromSys _ t => quiet_task (task_frames t)
+    | _ => quiet_thread r
+    end
+  end.
+
+Definition nids_fr (l : list frame) : list nat := flat_map (fun f => ctx_nids (frame_ctxs f)) l.
+Definition tnids (t : task) : list nat := frames_nids (task_frames t).
+
+Lemma nids_fr_app a b : nids_fr (a ++ b) = nids_fr a ++ nids_fr b.
+Proof. apply flat_map_app. Qed.
+
+Definition nidsA_task (fs : frames) : Prop :=
+  pp_task fs = true -> quiet_task fs ->
+  nids_fr (sp_task fs) = frames_nids fs ++ flat_map tnids (cont_task fs).
+Definition nidsA_thread (fs : frames) : Prop :=
+  forall ins, pp_thread ins fs = true -> quiet_thread fs ->
+  nids_fr (sp_thread fs) = flat_map tnids (cont_thread fs) /\ (ins = true -> cont_thread fs = []).
+Definition nidsA_kind (k : fkind) : Prop :=
+  match k with
+  | KToThread tfs => nidsA_thread tfs
+  | KFromSys _ t => nidsA_task (task_frames t)
+  | _ => True
+  end.
+
+Lemma nidsA_all :
+  (forall t : task, nidsA_task (task_frames t)) /\
+  (forall fs, nidsA_task fs /\ nidsA_thread fs) /\
+  (forall f : frame, match f with Frame _ k _ => nidsA_kind k end) /\
+  (forall k : fkind, nidsA_kind k) /\
+  (forall cs : ctxs, True) /\ (forall c : ctx, True) /\ (forall ts : tasks, True).
+Proof.
+  apply world_mutind; try (intros; exact I).
+  - intros r fs [H _]. exact H.
+  - split.
+    + intros _ _. reflexivity.
+    + intros ins _ _. split; [reflexivity | intros _; reflexivity].
+  - intros f Hf r [IHt IHh]. destruct f as [id k cs]. split.
+    + intros Hpp Hq. simpl in Hpp, Hq.
+      cbn [sp_task cont_task frames_nids]. unfold nids_fr at 1. cbn [flat_map frame_ctxs].
+      fold (nids_fr (match k with
+                     | KTrap _ => []
+                     | KToThread tfs => if next_is_wtr r then sp_thread tfs else sp_thread tfs ++ sp_task r
+                     | _ => sp_task r end)).
+      rewrite <- app_assoc. f_equal.
+      destruct k; simpl in Hpp, Hq, Hf; try discriminate; try (apply IHt; auto).
+      * (* trap *) rewrite Hq. reflexivity.
+      * (* to_thread *)
+        destruct Hq as [Hq1 Hq2]. destruct (next_is_wtr r).
+        -- destruct (Hf false Hpp Hq1) as [E _]. rewrite E, Hq2. reflexivity.
+        -- apply andb_true_iff in Hpp as [Hp1 Hp2].
+           destruct (Hf true Hp1 Hq1) as [E Z]. rewrite (Z eq_refl) in *.
+           rewrite nids_fr_app, E. simpl. apply IHt; auto.
+    + intros ins Hpp Hq. simpl in Hpp, Hq. destruct Hq as [Hc Hq].
+      cbn [sp_thread cont_thread]. unfold nids_fr at 1. cbn [flat_map frame_ctxs]. rewrite Hc. cbn [app].
+      fold (nids_fr (match k with
+                     | KFromHost => []
+                     | KFromSys _ t => sp_task (task_frames t)
+                     | _ => sp_thread r end)).
+      destruct k; simpl in Hpp, Hf; try discriminate.
+      * apply IHh; auto.
+      * apply IHh; auto.
+      * split; [reflexivity | intros _; reflexivity].
+      * apply andb_true_iff in Hpp as [Hins Hp]. split.
+        -- rewrite (Hf Hp Hq). reflexivity.
+        -- intros ->. discriminate.
+  - intros id k Hk cs _. exact Hk.
+  - intros tfs [_ H]. exact H.
+  - intros run t H. exact H.
+Qed.
+
+Section IsoHops.
+  Variable nurs_of : nat -> list nat.     (* Trio: task.child_nurseries *)
+  Variable kids_of : nat -> list nat.     (* Trio: nursery.child_tasks *)
+  Variable cont_of : nat -> list nat.     (* ground truth: the system tasks serving, outside in, the
+                                             from_thread.run(trio_token=...) calls a task is parked in *)
+
+  (* a stack shows the nurseries of its task followed by those of the tasks it continues into *)
+  Definition nurs_along (r : nat) : list nat := flat_map nurs_of (r :: cont_of r).
+
+  (* per task: well-typed hop chain outside F14; its own frames carry exactly its
+     child_nurseries; what the stack does not show opens no nursery; the tasks it continues
+     into are those of the table and their frames carry exactly their child_nurseries *)
+  Definition task_ok (r : nat) (fs : frames) : Prop :=
+    pp_task fs = true /\ f14_free fs = true /\ quiet_task fs /\
+    frames_nids fs = nurs_of r /\
+    map task_root (cont_task fs) = cont_of r /\
+    Forall (fun t => tnids t = nurs_of (task_root t)) (cont_task fs).
+
+  (* every nursery context anywhere in the world (own, worker-thread and serving-task frames)
+     holds exactly nursery.child_tasks, and every child task is well-formed in turn *)
+  Fixpoint hwf_task (t : task) : Prop :=
+    match t with Task r fs => task_ok r fs /\ hwf_frames fs end
+  with hwf_frames (fs : frames) : Prop :=
+    match fs with
+    | FNil => True
+    | FCons (Frame _ k cs) r => hwf_kind k /\ hwf_ctxs cs /\ hwf_frames r
+    end
+  with hwf_kind (k : fkind) : Prop :=
+    match k with
+    | KToThread tfs => hwf_frames tfs
+    | KFromSys _ t => hwf_frames (task_frames t)
+    | _ => True
+    end
+  with hwf_ctxs (cs : ctxs) : Prop :=
+    match cs with CNil => True | CCons c r => hwf_ctx c /\ hwf_ctxs r end
+  with hwf_ctx (c : ctx) : Prop :=
+    match c with
+    | CNurs n kids => roots kids = kids_of n /\ hwf_tasks kids
+    | COther _ => True
+    end
+  with hwf_tasks (ts : tasks) : Prop :=
+    match ts with TNil => True | TCons t r => hwf_task t /\ hwf_tasks r end.
+
+  Notation isoH := (iso nurs_along kids_of).
+  Notation ctx_isoH := (ctx_iso nurs_along kids_of).
+  Definition good (f : frame) : Prop := Forall ctx_isoH (ext_ctxs true (frame_ctxs f)).
+  Definition good_kind (k : fkind) : Prop :=
+    match k with
+    | KToThread tfs => forall g, In g (sp_thread tfs) -> good g
+    | KFromSys _ t => forall g, In g (sp_task (task_frames t)) -> good g
+    | _ => True
+    end.
+
+  Lemma nursery_ids_outK (l : list frame) : nursery_ids (map (outK true) l) = nids_fr l.
+  Proof.
+    induction l as [|f r IH]; [reflexivity|]. destruct f as [id k cs].
+    change (map (outK true) (Frame id k cs :: r)) with (outK true (Frame id k cs) :: map (outK true) r).
+    change (nursery_ids (outK true (Frame id k cs) :: map (outK true) r))
+      with (flat_map (fun c => match c with COut (ONurs n) _ => [n] | _ => [] end) (ext_ctxs true cs)
+            ++ nursery_ids (map (outK true) r)).
+    rewrite ext_ctxs_nids, IH. reflexivity.
+  Qed.
+
+  Lemma cont_nids (l : list task) :
+    Forall (fun t => tnids t = nurs_of (task_root t)) l ->
+    flat_map tnids l = flat_map nurs_of (map task_root l).
+  Proof. induction 1 as [|t l H _ IH]; simpl; [reflexivity|]. rewrite H, IH. reflexivity. Qed.
+
+  Lemma iso_hops_all :
+    (forall t, (hwf_task t -> isoH (ext_child true t)) /\
+               (hwf_frames (task_frames t) -> forall g, In g (sp_task (task_frames t)) -> good g)) /\
+    (forall fs, hwf_frames fs ->
+                (forall g, In g (sp_task fs) -> good g) /\ (forall g, In g (sp_thread fs) -> good g)) /\
+    (forall f, match f with Frame _ k cs =>
+                 (hwf_kind k -> good_kind k) /\ (hwf_ctxs cs -> Forall ctx_isoH (ext_ctxs true cs)) end) /\
+    (forall k : fkind, hwf_kind k -> good_kind k) /\
+    (forall cs, hwf_ctxs cs -> Forall ctx_isoH (ext_ctxs true cs)) /\
+    (forall c, hwf_ctx c -> Forall ctx_isoH (ext_ctxs true (CCons c CNil))) /\
+    (forall ts, hwf_tasks ts -> Forall isoH (ext_tasks true ts)).
+  Proof.
+    apply world_mutind.
+    - (* Task *)
+      intros r fs IHfs. split.
+      + intros [[Hpp [Hf14 [Hq [Hn [Hc Hcn]]]]] Hw]. simpl.
+        rewrite (proj1 (proj1 (proj2 hopsF_all) fs)) by (auto; unfold base_depth; lia).
+        constructor.
+        * rewrite nursery_ids_outK, (proj1 (proj1 (proj2 nidsA_all) fs)) by auto.
+          rewrite Hn, cont_nids, Hc by exact Hcn. unfold nurs_along. simpl. reflexivity.
+        * apply Forall_forall. intros o Ho. apply in_map_iff in Ho as [g [<- Hg]].
+          destruct g as [id k cs]. simpl. apply (proj1 (IHfs Hw) (Frame id k cs) Hg).
+      + intros Hw. exact (proj1 (IHfs Hw)).
+    - (* FNil *) intros _. split; intros g [].
+    - (* FCons *)
+      intros f Hf r IHr Hw. destruct f as [id k cs]. destruct Hf as [Hk Hcs].
+      simpl in Hw. destruct Hw as [Hwk [Hwc Hwr]]. destruct (IHr Hwr) as [IHt IHh].
+      specialize (Hk Hwk). specialize (Hcs Hwc). split.
+      + intros g Hg. cbn [sp_task] in Hg. destruct Hg as [<-|Hg]; [exact Hcs|].
+        destruct k; simpl in Hk; try (apply IHt; exact Hg); try (destruct Hg).
+        destruct (next_is_wtr r); [apply Hk; exact Hg|].
+        apply in_app_or in Hg as [Hg|Hg]; [apply Hk | apply IHt]; exact Hg.
+      + intros g Hg. cbn [sp_thread] in Hg. destruct Hg as [<-|Hg]; [exact Hcs|].
+        destruct k; simpl in Hk; try (apply IHh; exact Hg); try (destruct Hg).
+        apply Hk; exact Hg.
+    - (* Frame *) intros id k Hk cs Hcs. split; assumption.
+    - intros _; exact I.
+    - intros _; exact I.
+    - intros w _; exact I.
+    - intros _; exact I.
+    - (* KToThread *) intros tfs IH Hw. simpl in *. exact (proj2 (IH Hw)).
+    - intros _; exact I.
+    - (* KFromSys *) intros run t [_ IH] Hw. simpl in *. exact (IH Hw).
+    - (* CNil *) intros _. constructor.
+    - (* CCons *) intros c IHc r IHr [Hc Hr]. specialize (IHc Hc). specialize (IHr Hr).
+      simpl in *. inversion IHc; subst. constructor; assumption.
+    - (* CNurs *) intros n kids IHk [Hr Hw]. simpl. constructor; [|constructor].
+      constructor; [rewrite ext_tasks_roots, Hr; reflexivity | auto].
+    - (* COther *) intros c _. simpl. constructor; constructor.
+    - (* TNil *) intros _. constructor.
+    - (* TCons *) intros t [IHt _] r IHr [Ht Hr]. simpl. constructor; auto.
+  Qed.
+
+  (* the combined statement, for the root (suspended or running) and, because the children of
+     the result ARE [ext_child true kid] and [hwf_task] is hereditary, for every task below it *)
+  Lemma iso_hops_extract run t : hwf_task t ->
+    isoH (extract true (RTask run t)) /\
+    match extract true (RTask run t) with Stack _ fs => ids fs = splice_task (task_frames t) end.
+  Proof.
+    intros H. destruct t as [r fs]. pose proof H as [[Hpp [Hf14 _]] _].
+    pose proof (proj1 (proj1 iso_hops_all (Task r fs)) H) as I. simpl in I.
+    unfold extract, frames_of. split.
+    - rewrite (proj1 (proj1 (proj2 hopsF_all) fs)) in * by (auto; unfold base_depth; lia). exact I.
+    - apply (proj1 (proj1 (proj2 hops_all) fs)); auto.
+  Qed.
+
+  Lemma iso_hops_child t : hwf_task t ->
+    isoH (ext_child true t) /\
+    match ext_child true t with Stack _ fs => ids fs = splice_task (task_frames t) end.
+  Proof.
+    intros H. split; [apply (proj1 (proj1 iso_hops_all t) H)|].
+    destruct t as [r fs]. destruct H as [[Hpp [Hf14 _]] _]. simpl.
+    apply (proj1 (proj1 (proj2 hops_all) fs)); auto.
+  Qed.
+End IsoHops.
+
+Lemma ext_tasks_map rc ts : ext_tasks rc ts = map (ext_child rc) (tasks_list ts).
+Proof. induction ts as [|t r IH]; simpl; [reflexivity|]. rewrite IH. reflexivity. Qed.
+
+(* example: a tree whose children are parked in hop chains (one re-entered through
+   from_thread.run with a nursery opened by the call being served, one continued into a system
+   task that holds a nursery) satisfies the hypothesis of the combined theorem *)
+Definition exh_kidA : task :=
+  Task 1 (fl [P 10; Frame 11 (KToThread (fl [P 12; Frame 13 KFromHost CNil; P 14])) CNil;
+              Frame 15 KHidden CNil;
+              Frame 16 KPlain (cl [CNurs 1 (tl [Task 3 (ex_parked 30)])]);
+              Frame 17 (KTrap true) CNil; P 18]).
+Definition exh_sys : task :=
+  Task 5 (fl [Frame 50 KHidden CNil; Frame 51 KPlain (cl [CNurs 2 (tl [Task 4 (ex_parked 40)])]);
+              Frame 52 (KTrap true) CNil; P 53]).
+Definition exh_kidB : task :=
+  Task 2 (fl [P 20; Frame 21 (KToThread (fl [P 22; Frame 23 (KFromSys false exh_sys) CNil; P 24])) CNil;
+              Frame 25 (KTrap true) CNil; P 26]).
+Definition exh_tree : task :=
+  Task 0 (fl [Frame 0 KPlain (cl [CNurs 0 (tl [exh_kidA; exh_kidB])]); Frame 1 (KTrap true) CNil; P 2]).
+Definition exh_nurs : table := [(0, [0]); (1, [1]); (5, [2])].
+Definition exh_kids : table := [(0, [1; 2]); (1, [3]); (2, [4])].
+Definition exh_cont : table := [(2, [5])].
+
+Lemma exh_tree_wf : hwf_task (tlookup exh_nurs) (tlookup exh_kids) (tlookup exh_cont) exh_tree.
+Proof. cbv -[tlookup]. repeat split; try reflexivity; repeat constructor. Qed.
+
+Lemma exh_tree_frames :
+  match extract true (RTask false exh_kidB) with Stack _ fs => ids fs end = [20; 21; 22; 23; 50; 51; 52].
+Proof. vm_compute. reflexivity. Qed.
+
+(* ================================================================== the lookahead approximation
+   [next_is_wtr] lets a to_thread.run_sync frame that is the LAST entry of its segment see
+   next_inner = None, although in extract_iter the head of an enclosing segment could follow.
+   [walkL lk] is the model with that lookahead made explicit and ARBITRARY: [lk id] is whatever
+   "next_inner is wait_task_rescheduled" evaluates to for the to_thread frame [id] at the end of
+   a segment.  On ping-pong worlds the extracted frames do not depend on it (thread segments
+   contain no to_thread frame; a task segment's pending prune is ignored by whatever encloses
+   it), so the approximation cannot be observed. *)
+Definition next_is_wtrL (lk : nat -> bool) (id : nat) (rest : frames) : bool :=
+  match rest with FNil => lk id | _ => next_is_wtr rest end.
+
+Fixpoint walkL (lk : nat -> bool) (rc inc : bool) (n d : nat) (pr : option nat) (fs : frames) {struct fs}
+  : list fout * option nat :=
+  match fs with
+  | FNil => ([], pr)
+  | FCons f rest =>
+    let n' := next_depth inc n in
+    if pruned pr d then walkL lk rc inc n' n' pr rest else
+    match f with
+    | Frame id k cs =>
+      let cx := ext_ctxs rc cs in
+      let cons1 (x : fout) (r : list fout * option nat) := (x :: fst r, snd r) in
+      match k with
+      | KPlain => cons1 (FOut id false cx) (walkL lk rc inc n' n' None rest)
+      | KHidden => cons1 (FOut id true cx) (walkL lk rc inc n' n' None rest)
+      | KTrap _ => cons1 (FOut id true cx) (walkL lk rc inc n' n' (Some d) rest)
+      | KToThreadNF => cons1 (FOut id false cx) (walkL lk rc inc n' n' None rest)
+      | KToThread tfs =>
+          let r1 := walkL lk rc false (S d) (S d) None tfs in
+          let r2 := if next_is_wtrL lk id rest
+                    then walkL lk rc inc n' n' (Some d) rest
+                    else walkL lk rc inc n' (Nat.min d n') (snd r1) rest
+          in (FOut id true cx :: fst r1 ++ fst r2, snd r2)
+      | KFromHost => cons1 (FOut id true cx) (walkL lk rc inc n' n' (Some d) rest)
+      | KFromSys run t =>
+          if reentered (task_frames t)
+          then cons1 (FOut id false cx) (walkL lk rc inc n' n' None rest)
+          else
+          let r1 := walkL lk rc (negb run) (S d) (S d) None (task_frames t) in
+          let r2 := walkL lk rc inc n' n' (Some d) rest in
+          (FOut id true cx :: fst r1 ++ fst r2, snd r2)
+      end
+    end
+  end.
+
+Lemma walkL_pruned lk rc inc fs : forall n d p, p <= d -> d <= n ->
+  walkL lk rc inc n d (Some p) fs = ([], Some p).
+Proof.
+  induction fs as [|f r IH]; intros n d p Hp Hd; simpl; [reflexivity|].
+  assert (E : (p <=? d) = true) by (apply Nat.leb_le; lia).
+  rewrite E. apply IH; pose proof (next_depth_ge inc n); lia.
+Qed.
+
+Lemma walkL_unpruned_fst lk rc inc fs : forall n d p, d < p ->
+  fst (walkL lk rc inc n d (Some p) fs) = fst (walkL lk rc inc n d None fs).
+Proof.
+  destruct fs as [|f r]; intros n d p H; simpl; [reflexivity|].
+  assert (E : (p <=? d) = false) by (apply Nat.leb_gt; lia).
+  rewrite E. reflexivity.
+Qed.
+
+Definition look_task (fs : frames) : Prop :=
+  pp_task fs = true -> f14_free fs = true ->
+  forall lk rc inc n d, d <= n -> fst (walkL lk rc inc n d None fs) = fst (walk rc inc n d None fs).
+Definition look_thread (fs : frames) : Prop :=
+  forall ins, pp_thread ins fs = true -> f14_free fs = true ->
+  forall lk rc n, walkL lk rc false n n None fs = walk rc false n n None fs.
+Definition look_kind (k : fkind) : Prop :=
+  match k with
+  | KToThread tfs => look_thread tfs
+  | KFromSys _ t => look_task (task_frames t)
+  | _ => True
+  end.
+
+Lemma look_all :
+  (forall t : task, look_task (task_frames t)) /\
+  (forall fs, look_task fs /\ look_thread fs) /\
+  (forall f : frame, match f with Frame _ k _ => look_kind k end) /\
+  (forall k : fkind, look_kind k) /\
+  (forall cs : ctxs, True) /\ (forall c : ctx, True) /\ (forall ts : tasks, True).
+Proof.
+  apply world_mutind; try (intros; exact I).
+  - intros r fs [H _]. exact H.
+  - split.
+    + intros _ _ lk rc inc n d _. reflexivity.
+    + intros ins _ _ lk rc n. reflexivity.
+  - intros f Hf r [IHt IHh]. destruct f as [id k cs]. split.
+    + intros Hpp Hf14 lk rc inc n d Hd.
+      pose proof (next_depth_ge inc n) as Hn.
+      simpl in Hpp, Hf14. simpl walk. simpl walkL. unfold pruned.
+      destruct k; simpl in Hpp, Hf14; try discriminate.
+      * simpl. f_equal. apply IHt; auto.
+      * simpl. f_equal. apply IHt; auto.
+      * simpl. f_equal. rewrite walk_pruned, walkL_pruned by lia. reflexivity.
+      * simpl. f_equal. apply IHt; auto.
+      * apply andb_true_iff in Hf14 as [Hf1 Hf2]. simpl in Hf.
+        cbn [fst snd]. f_equal.
+        destruct r as [|g r'].
+        -- (* the to_thread frame ends its segment: the lookahead is arbitrary *)
+           simpl in Hpp. apply andb_true_iff in Hpp as [Hp1 _].
+           rewrite (Hf true Hp1 Hf1 lk rc (S d)). f_equal.
+           cbn [next_is_wtrL next_is_wtr]. destruct (lk id); reflexivity.
+        -- cbn [next_is_wtrL]. destruct (next_is_wtr (FCons g r')) eqn:Ew.
+           ++ rewrite (Hf false Hpp Hf1 lk rc (S d)). f_equal.
+              rewrite walk_pruned, walkL_pruned by lia. reflexivity.
+           ++ apply andb_true_iff in Hpp as [Hp1 Hp2].
+              rewrite (Hf true Hp1 Hf1 lk rc (S d)). f_equal.
+              destruct (proj2 (proj1 (proj2 hops_all) tfs) true Hp1 Hf1 rc (S d)) as [_ S].
+              destruct (S eq_refl) as [-> | ->].
+              ** apply IHt; auto. lia.
+              ** rewrite walk_unpruned_fst, walkL_unpruned_fst by lia. apply IHt; auto. lia.
+    + intros ins Hpp Hf14 lk rc n.
+      simpl in Hpp, Hf14. simpl walk. simpl walkL. unfold pruned.
+      destruct k; simpl in Hpp, Hf14; try discriminate.
+      * rewrite (IHh ins Hpp Hf14 lk rc n). reflexivity.
+      * rewrite (IHh ins Hpp Hf14 lk rc n). reflexivity.
+      * rewrite walk_pruned, walkL_pruned by lia. reflexivity.
+      * apply andb_true_iff in Hf14 as [Hf1 Hf2]. apply andb_true_iff in Hf1 as [Hre Hf1].
+        apply andb_true_iff in Hpp as [Hins Hp].
+        apply negb_true_iff in Hre. rewrite Hre. simpl in Hf.
+        rewrite walk_pruned, walkL_pruned by lia.
+        rewrite (Hf Hp Hf1 lk rc (negb running) (S n) (S n)) by lia. reflexivity.
+  - intros id k Hk cs _. exact Hk.
+  - intros tfs [_ H]. exact H.
+  - intros run t H. exact H.
+Qed.
+
+Lemma lookahead_irrelevant lk rc r :
+  (match r with
+   | RTask _ t => pp_task (task_frames t) && f14_free (task_frames t)
+   | RThread _ fs => pp_thread false fs && f14_free fs
+   end) = true ->
+  match r with
+  | RTask run t => fst (walkL lk rc (negb run) base_depth base_depth None (task_frames t))
+  | RThread _ fs => fst (walkL lk rc false base_depth base_depth None fs)
+  end = match extract rc r with Stack _ fs => fs end.
+Proof.
+  destruct r as [run [x fs]|tid fs]; intros H; apply andb_true_iff in H as [Hp Hf]; simpl; unfold frames_of.
+  - apply (proj1 (proj1 (proj2 look_all) fs)); auto.
+  - rewrite (proj2 (proj1 (proj2 look_all) fs) false Hp Hf lk rc base_depth). reflexivity.
+Qed.
